@@ -1,6 +1,364 @@
 import UvModel.Lemmas.IoWatchLemmas
-/-! C14 property theorems (see DESIGN.md §3 C14) -/
+/-! C14 property theorems (DESIGN.md §3 C14).  Model: UvModel.IoWatch.  `exec sc (init ..) prog` is the
+state after an arbitrary program (user ops and `uv_run` iterations with arbitrary kernel batches) under
+an arbitrary callback script `sc`; `SInv`/`Reach` are in Lemmas/IoWatchLemmas. -/
 namespace UvModel.Props.C14
 open UvModel.IoWatch
+
+/-- every state any program reaches (from loop init) satisfies the structural invariant -/
+theorem sinv_exec (sc : Script) (ring : Bool) (internal nw : Nat) (prog : List Cmd) :
+    SInv (exec sc (init ring internal nw) prog) :=
+  (sinv_init ring internal nw).reach (reach_exec sc _ prog)
+
+/-- **nfds_exact**: `loop->nfds` (minus libuv's own watchers) is the number of descriptors with a
+registered watcher — after any program, any script, any batches; in particular it never underflows. -/
+theorem nfds_exact (sc : Script) (ring : Bool) (internal nw : Nat) (prog : List Cmd) :
+    (exec sc (init ring internal nw) prog).nfds =
+      (((exec sc (init ring internal nw) prog).watchers.countP Option.isSome : Nat) : Int) ∧
+    0 ≤ (exec sc (init ring internal nw) prog).nfds := by
+  have h := (sinv_exec sc ring internal nw prog).nfds
+  exact ⟨h, by omega⟩
+
+/-- the same inside callbacks: every state reached from an invariant state by any model function -/
+theorem nfds_exact_everywhere {s t : St} (i : SInv s) (h : Reach s t) :
+    t.nfds = ((t.watchers.countP Option.isSome : Nat) : Int) := (i.reach h).nfds
+
+/-- **queue_no_dup**: a watcher is in `watcher_queue` at most once. -/
+theorem queue_no_dup (sc : Script) (ring : Bool) (internal nw : Nat) (prog : List Cmd) :
+    (exec sc (init ring internal nw) prog).wq.Nodup := (sinv_exec sc ring internal nw prog).nodup
+
+set_option maxRecDepth 100000 in
+example : (exec (fun _ _ => [.pstop 1]) (init false 2 14)
+    [.op (.openfd 100 0), .op (.openfd 101 0), .op (.pinit 100), .op (.pinit 101), .op (.pstart 0 ⟨true, false, false, false⟩),
+     .op (.pstart 1 ⟨true, true, false, false⟩), .run [[(some 100, Mask.pollin), (some 101, Mask.pollin)]]]).nfds = 1 := by
+  decide
+
+/-! ### kernel_sync_at_block -/
+
+/-- libuv's half of **kernel_sync_at_block**, for all reachable states: when `uv__io_poll` has applied the
+watcher queue (and flushed the ctl ring) — the state in which it calls `epoll_pwait` — nothing is queued
+and every registered watcher's kernel mask `events` equals the requested `pevents`. -/
+theorem told_at_block {s : St} (i : SInv s) : Told (flushAll (applyQueue s)) := by
+  have a := applied_applyQueue s
+  have f := same_flushAll (applyQueue s)
+  have i' : SInv (applyQueue s) := i.applied a
+  have hg : ∀ id, getW (flushAll (applyQueue s)) id = getW (applyQueue s) id := by intro id; simp [getW, f.1]
+  refine ⟨by rw [f.2.2.2, a.wq], fun fd id h => ?_⟩
+  have h' : watcherAt (applyQueue s) fd = some id := by simpa [watcherAt, f.2.1] using h
+  rw [hg]
+  by_cases he : (getW (applyQueue s) id).events = (getW (applyQueue s) id).pevents
+  · exact he
+  · have := i'.told fd id h' he; rw [a.wq] at this; simp at this
+
+theorem told_at_block_exec (sc : Script) (ring : Bool) (internal nw : Nat) (prog : List Cmd) :
+    Told (flushAll (applyQueue (exec sc (init ring internal nw) prog))) :=
+  told_at_block (sinv_exec sc ring internal nw prog)
+
+/-- a batch that produced no callback (`nevents == 0`, the only case in which `uv__io_poll` polls again
+with a non-zero timeout, linux.c:1592-1606) leaves the registry untouched, so `Told` still holds at the
+next blocking `epoll_pwait` -/
+theorem dispatchOne_quiet (sc : Script) (s : St) (i : Nat) (h : (dispatchOne sc s i).2 = false) :
+    Same4 s (dispatchOne sc s i).1 := by
+  generalize hr : dispatchOne sc s i = r at h ⊢
+  unfold dispatchOne at hr
+  split at hr
+  · subst hr; exact Same4.refl _
+  · split at hr
+    · subst hr; exact same_abort _
+    · split at hr
+      · subst hr; exact same_ctl _ _ _ _ _
+      · simp only [] at hr
+        split at hr
+        · subst hr; simp at h
+        · subst hr; exact Same4.refl _
+
+theorem quiet_dispatch_same (sc : Script) (s : St) (i n : Nat) (h : (dispatchFrom sc s i n).2 = 0) :
+    Same4 s (dispatchFrom sc s i n).1 := by
+  induction n generalizing s i with
+  | zero => exact Same4.refl _
+  | succ n ih =>
+    unfold dispatchFrom at h ⊢
+    split
+    · exact Same4.refl _
+    · rename_i hab
+      simp only [hab] at h
+      have h1 : (dispatchOne sc s i).2 = false := by
+        cases hc : (dispatchOne sc s i).2 <;> simp_all
+      have h2 : (dispatchFrom sc (dispatchOne sc s i).1 (i + 1) n).2 = 0 := by
+        simp at h; omega
+      exact Same4.trans (dispatchOne_quiet sc s i h1) (ih _ _ h2)
+
+theorem told_at_reblock (sc : Script) (s : St) (b : Batch) (h : Told s)
+    (hq : (dispatchFrom sc { s with batch := b, inv := true } 0 b.length).2 = 0) :
+    Told (flushAll { (dispatchFrom sc { s with batch := b, inv := true } 0 b.length).1 with inv := false, batch := [] }) := by
+  have q := quiet_dispatch_same sc { s with batch := b, inv := true } 0 b.length hq
+  generalize dispatchFrom sc { s with batch := b, inv := true } 0 b.length = r at q ⊢
+  have f := same_flushAll { r.1 with inv := false, batch := [] }
+  have e1 : (flushAll { r.1 with inv := false, batch := [] }).ws = s.ws := by rw [f.1]; exact q.1
+  have e2 : (flushAll { r.1 with inv := false, batch := [] }).watchers = s.watchers := by rw [f.2.1]; exact q.2.1
+  have e4 : (flushAll { r.1 with inv := false, batch := [] }).wq = s.wq := by rw [f.2.2.2]; exact q.2.2.2
+  refine ⟨by rw [e4]; exact h.1, fun fd id hw => ?_⟩
+  have : watcherAt s fd = some id := by simpa [watcherAt, e2] using hw
+  have := h.2 fd id this
+  simpa [getW, e1] using this
+
+/-- the kernel's half: a successful `EPOLL_CTL_ADD`/`MOD` leaves an entry for (description, fd) with
+exactly the given mask, owned by the caller -/
+theorem ctl_success_entry (k : Kernel) (op : CtlOp) (fd : Nat) (m : Mask) (ow : Option Nat)
+    (hop : op ≠ .del) (h : (k.ctl op fd m ow).2 = 0) :
+    ∃ o, k.ofdAt fd = some o ∧ ∃ e ∈ (k.ctl op fd m ow).1.ents, e.ofd = o ∧ e.fd = fd ∧ e.mask = m ∧ e.owner = ow := by
+  unfold Kernel.ctl at h ⊢
+  cases ho : k.ofdAt fd with
+  | none => simp [ho] at h
+  | some o =>
+    refine ⟨o, rfl, ?_⟩
+    simp only [ho] at h ⊢
+    cases op with
+    | del => exact absurd rfl hop
+    | add =>
+      by_cases hh : k.hasEnt o fd
+      · simp [hh] at h
+      · simp only [hh]; exact ⟨⟨o, fd, m, ow⟩, by simp, rfl, rfl, rfl, rfl⟩
+    | mod =>
+      by_cases hh : k.hasEnt o fd
+      · simp only [hh, if_true]
+        simp [Kernel.hasEnt] at hh
+        obtain ⟨e, he, h1, h2⟩ := hh
+        exact ⟨{ e with mask := m, owner := ow }, by simp; exact ⟨e, he, by simp [h1, h2]⟩, h1, h2, rfl, rfl⟩
+      · simp [hh] at h
+
+/-- `EPOLL_CTL_DEL` (what `uv__platform_invalidate_fd` issues on stop/close while the descriptor is still
+open) leaves no entry for (description, fd) — whether or not other references to the description exist -/
+theorem ctl_del_removes (k : Kernel) (fd o : Nat) (m : Mask) (ow : Option Nat) (ho : k.ofdAt fd = some o) :
+    ∀ e ∈ (k.ctl .del fd m ow).1.ents, ¬ (e.ofd = o ∧ e.fd = fd) := by
+  unfold Kernel.ctl; simp only [ho]
+  by_cases hh : k.hasEnt o fd
+  · simp only [hh, if_true]; intro e he; simp at he; intro hc
+    rcases he.2 with h1 | h1
+    · exact h1 hc.1
+    · exact h1 hc.2
+  · simp only [hh]; intro e he hc
+    apply hh; simp [Kernel.hasEnt]; exact ⟨e, he, hc.1, hc.2⟩
+
+/-- what is still missing for the full statement: the kernel-side invariant
+(`events ≠ 0 → entry (description at fd, fd) with mask events`, entries only owned by live handles) carried
+through every operation.  The correspondence check compares the model's interest list with the real
+kernel's at every `epoll_pwait`. -/
+def kernel_sync_full_statement : Prop :=
+  ∀ (sc : Script) (ring : Bool) (internal nw : Nat) (prog : List Cmd),
+    let s := flushAll (applyQueue (exec sc (init ring internal nw) prog))
+    s.aborted = false →
+    (∀ fd id, watcherAt s fd = some id →
+      ∃ o, s.k.ofdAt fd = some o ∧ ∃ e ∈ s.k.ents, e.ofd = o ∧ e.fd = fd ∧ e.mask = (getW s id).pevents) ∧
+    (∀ e ∈ s.k.ents, ∀ id, e.owner = some id → (getW s id).closing = false)
+
+/-! ### only_requested -/
+
+/-- **only_requested** (mask level, linux.c:1536-1555): what a watcher callback receives is within
+requested ∪ {ERR, HUP}; it is non-empty only if the batch entry carried a requested bit or ERR/HUP. -/
+theorem only_requested (pev m : Mask) :
+    (filterEv pev m).sub (pev.or Mask.errhup) ∧
+    (filterEv pev m ≠ Mask.none → m.and (pev.or Mask.errhup) ≠ Mask.none) := by
+  unfold filterEv; simp only []
+  constructor
+  · split
+    · rename_i h
+      rcases h with h | h <;> rw [h] <;> cases pev <;>
+        simp [Mask.sub, Mask.and, Mask.or, Mask.errhup, Mask.errOnly, Mask.hupOnly, Mask.all4]
+    · cases pev; cases m; simp [Mask.sub, Mask.and, Mask.or, Mask.errhup]
+  · split
+    · rename_i h; intro _
+      rcases h with h | h <;> rw [h] <;> simp [Mask.errOnly, Mask.hupOnly, Mask.none]
+    · exact id
+
+/-- **only_requested** for uv_poll (poll.c:53-63): a status-0 poll callback reports a subset of the
+events passed to `uv_poll_start` -/
+theorem only_requested_poll (u : UvEv) (m : Mask) :
+    (pollToUv (filterEv (uvToPoll u) m)).sub u := by
+  unfold filterEv; simp only []
+  split
+  · rename_i h
+    rcases h with h | h <;> rw [h] <;> cases u <;>
+      simp [UvEv.sub, pollToUv, uvToPoll, Mask.and, Mask.or, Mask.errOnly, Mask.hupOnly, Mask.all4]
+  · cases u; cases m
+    simp [UvEv.sub, pollToUv, uvToPoll, Mask.and, Mask.or, Mask.errhup]
+    repeat' constructor
+    all_goals (intro h; exact h.2)
+
+example : filterEv (uvToPoll ⟨true, false, false, false⟩) ⟨true, false, true, false, true, false⟩
+    = ⟨true, false, false, false, true, false⟩ := by decide
+
+/-- a callback is made only for the watcher registered under the batch entry's descriptor, with the
+filtered mask of *that* entry -/
+theorem dispatch_callback_spec (sc : Script) (s : St) (i : Nat) (h : (dispatchOne sc s i).2 = true) :
+    ∃ fd m id, s.batch.getD i (none, Mask.none) = (some fd, m) ∧ watcherAt s fd = some id ∧
+      filterEv (getW s id).pevents m ≠ Mask.none ∧
+      (dispatchOne sc s i).1 = deliver sc s id (filterEv (getW s id).pevents m) := by
+  generalize hr : dispatchOne sc s i = r at h ⊢
+  unfold dispatchOne at hr
+  split at hr
+  · subst hr; simp at h
+  · rename_i fd m heq
+    split at hr
+    · subst hr; simp at h
+    · split at hr
+      · subst hr; simp at h
+      · rename_i id hw
+        simp only [] at hr
+        split at hr
+        · rename_i hne; subst hr; exact ⟨fd, m, id, heq, hw, hne, rfl⟩
+        · subst hr; simp at h
+
+/-! ### silence_after_stop_close -/
+
+/-- when `uv_poll_stop` / `uv_close` (poll) / `uv__io_close` returns, the watcher is registered under no
+descriptor; `dispatch_callback_spec` then says no batch entry can reach it -/
+theorem stop_unregisters {s : St} (i : SInv s) (id : Nat) : Unreg (ioStop s id Mask.all4) id := by
+  intro fd h
+  have i' := i.stop id Mask.all4
+  have hfd := (i'.reg fd id h).2
+  have hne := i'.regReq fd id h
+  obtain ⟨hg, _, _, ha, _⟩ := ioStop_spec s id Mask.all4
+  have hd : (getW s id).pevents.diff Mask.all4 = Mask.none := by
+    have := i.mask4 id
+    cases hp : (getW s id).pevents
+    rw [hp] at this; simp at this
+    simp [Mask.diff, Mask.all4, Mask.none, this]
+  rw [hg] at hne
+  split at hne
+  · simp [hd] at hne
+  · -- never started: it is not registered in `s` either
+    rename_i hc
+    rw [ha] at h
+    split at h
+    · simp at h
+    · have r := i.reg fd id h
+      apply hc
+      refine ⟨rfl, r.1, ?_⟩
+      rw [r.2]; exact watcherAt_lt h
+
+theorem unreg_kept {s t : St} (k : Same4 s t) (id : Nat) (h : Unreg s id) : Unreg t id := by
+  intro fd; have := h fd; simpa [watcherAt, k.2.1] using this
+
+theorem invalidate_watchers (t : St) (fd : Nat) : (invalidate t fd).watchers = t.watchers :=
+  (same_invalidate t fd).2.1
+
+theorem pollStop_watchers (s : St) (id : Nat) : (pollStop s id).watchers = (ioStop s id Mask.all4).watchers := by
+  unfold pollStop; simp only [setW, invalidate_watchers]
+
+theorem ioClose_watchers (s : St) (id : Nat) : (ioClose s id).watchers = (ioStop s id Mask.all4).watchers := by
+  unfold ioClose; simp only [setW, invalidate_watchers]
+
+theorem pollStop_unregisters {s : St} (i : SInv s) (id : Nat) : Unreg (pollStop s id) id := by
+  intro fd; have := stop_unregisters i id fd
+  simpa only [watcherAt, pollStop_watchers] using this
+
+theorem pollClose_unregisters {s : St} (i : SInv s) (id : Nat) : Unreg (pollClose s id) id := by
+  intro fd; have := pollStop_unregisters i id fd
+  simpa only [watcherAt, pollClose, setW] using this
+
+theorem ioClose_unregisters {s : St} (i : SInv s) (id : Nat) : Unreg (ioClose s id) id := by
+  intro fd; have := stop_unregisters i id fd
+  simpa only [watcherAt, ioClose_watchers] using this
+
+/-- an unregistered watcher stays unregistered through every step except its own `uv__io_start`
+(i.e. until the user starts it again) -/
+theorem unreg_step {s t : St} (id : Nat) (h : Unreg s id) (st : Step s t) :
+    Unreg t id ∨ ∃ m, t = ioStart s id m := by
+  cases st with
+  | kept k => left; intro fd; have := h fd; simpa [watcherAt, k.watchers] using this
+  | applied a => left; intro fd; have := h fd; simpa [watcherAt, a.watchers] using this
+  | stop j m =>
+    left; intro fd
+    rw [(ioStop_spec s j m).2.2.2.1 fd]
+    split
+    · simp
+    · exact h fd
+  | start j m hj _ _ _ =>
+    by_cases e : j = id
+    · right; exact ⟨m, by rw [e]⟩
+    · left; intro fd
+      rw [(ioStart_spec s j m hj).2.2.2.1 fd]
+      split
+      · intro hc; simp at hc; exact e hc
+      · exact h fd
+
+/-- **silence_after_stop_close**, batch part (linux.c:711-715): stopping or closing a watcher while a
+batch is being dispatched erases every remaining entry of that descriptor number — so neither the
+stopped handle nor a new handle started on the re-used number inside the same batch sees the stale event -/
+theorem invalidate_erases (s : St) (fd : Nat) (h : s.inv = true) :
+    ∀ e ∈ (invalidate s fd).batch, e.1 ≠ some fd := by
+  unfold invalidate; simp only [h, if_true]
+  intro e he
+  have : e ∈ s.batch.map fun e => if e.1 = some fd then (none, e.2) else e := he
+  simp at this
+  obtain ⟨a, b, _, hab⟩ := this
+  split at hab
+  · rw [← hab]; simp
+  · rw [← hab]; assumption
+
+theorem pollStop_erases (s : St) (id : Nat) (h : s.inv = true) :
+    ∀ e ∈ (pollStop s id).batch, e.1 ≠ some (getW s id).fd := by
+  generalize hs1 : setW (ioStop s id Mask.all4) id { getW (ioStop s id Mask.all4) id with active := false } = s1
+  have hb : (pollStop s id).batch = (invalidate s1 (getW s1 id).fd).batch := by
+    rw [← hs1]; unfold pollStop; rfl
+  have hinv : s1.inv = true := by
+    rw [← hs1]; show (ioStop s id Mask.all4).inv = true
+    unfold ioStop; simp only []; repeat' split
+    all_goals simpa [setW] using h
+  have hfd : (getW s1 id).fd = (getW s id).fd := by
+    rw [← hs1, getW_setW]
+    have := (ioStop_spec s id Mask.all4).1 id
+    split
+    · show (getW (ioStop s id Mask.all4) id).fd = _
+      rw [this]; repeat' split
+      all_goals rfl
+    · rw [this]; repeat' split
+      all_goals rfl
+  intro e he
+  rw [hb] at he
+  rw [← hfd]; exact invalidate_erases s1 _ hinv e he
+
+/-! ### persistent_reporting -/
+
+/-- **persistent_reporting** (level-triggered): whenever the batch reports a requested bit for a
+registered watcher, the callback is made in this very iteration and carries every requested bit that was
+reported; together with `told_at_block` (the kernel keeps being asked for exactly `pevents`, and libuv
+never sets EPOLLET/EPOLLONESHOT) a persisting condition is reported in every iteration. -/
+theorem persistent_reporting (sc : Script) (s : St) (i fd id : Nat) (m : Mask)
+    (hb : s.batch.getD i (none, Mask.none) = (some fd, m)) (hw : watcherAt s fd = some id)
+    (hr : m.and (getW s id).pevents ≠ Mask.none) :
+    dispatchOne sc s i = (deliver sc s id (filterEv (getW s id).pevents m), true) ∧
+    (m.and (getW s id).pevents).sub (filterEv (getW s id).pevents m) := by
+  have hlt := watcherAt_lt hw
+  have hsub : (m.and (getW s id).pevents).sub (filterEv (getW s id).pevents m) ∧
+      filterEv (getW s id).pevents m ≠ Mask.none := by
+    generalize (getW s id).pevents = pev at hr ⊢
+    unfold filterEv; simp only []
+    split
+    · rename_i h
+      constructor
+      · rcases h with h | h <;> rw [h] <;> cases pev <;> cases m <;>
+          simp [Mask.sub, Mask.and, Mask.or, Mask.errOnly, Mask.hupOnly, Mask.all4] <;> simp_all [Mask.and, Mask.or, Mask.errhup, Mask.errOnly, Mask.hupOnly]
+      · rcases h with h | h <;> rw [h] <;> cases pev <;>
+          simp [Mask.or, Mask.and, Mask.errOnly, Mask.hupOnly, Mask.none]
+    · constructor
+      · cases pev; cases m; simp [Mask.sub, Mask.and, Mask.or, Mask.errhup]
+        repeat' constructor
+        all_goals (intro h; simp_all)
+      · intro hc; apply hr
+        cases pev; cases m
+        simp [Mask.and, Mask.or, Mask.errhup, Mask.none] at hc ⊢
+        simp_all
+  refine ⟨?_, hsub.1⟩
+  unfold dispatchOne
+  simp only [hb]
+  rw [if_neg (by omega)]
+  simp only [hw]
+  rw [if_pos hsub.2]
+
+example : (dispatchOne (fun _ _ => []) { (exec (fun _ _ => []) (init false 2 14)
+    [.op (.openfd 100 0), .op (.pinit 100), .op (.pstart 0 ⟨true, false, false, false⟩)]) with
+      batch := [(some 100, Mask.pollin)], inv := true } 0).2 = true := by decide
 
 end UvModel.Props.C14
